@@ -257,6 +257,9 @@ def build_family(case: dict[str, Any]) -> tuple[dict[str, str], str]:
             call = "{% " + tag + " '" + nxt + "' %}"
             if case.get("via_for") and tag == "render":
                 call = "{% render '" + nxt + "' for xs %}"
+            # (fanout: the template calls its successor more than once, one call after the other: if the first call's error is only reported - a
+            # tolerant environment - the second call is made too)
+            call = call * case.get("fanout", 1)
             tpls[nm] = f"<{nm}>" + wrap(call, ws if i == 0 or case.get("wrap_all") else [])
         # `include` is not allowed inside a rendered partial: a mixed cycle is built so that includes precede renders only at the entry
         return tpls, names[0]
@@ -310,7 +313,8 @@ ALLOWED_END = ("ContextDepthError", "TemplateInheritanceError", "LoopIterationLi
 
 def judge_family(ctx: core.Ctx, case: dict[str, Any]) -> None:
     tpls, entry = build_family(case)
-    e = env("strict")
+    mode = case.get("mode", "strict")
+    e = env(mode)
     e.loader = DictLoader(tpls)
 
     def run():
@@ -329,7 +333,7 @@ def judge_family(ctx: core.Ctx, case: dict[str, Any]) -> None:
     d = eff_depth(case["wrappers"])
     sig_tail = f"{case['family']}:block-depth>={max(x for x in LADDER if x <= d)}"
     if out == "steps":
-        ctx.violation(f"render-exceeds-step-budget:{case['family']}", f"rendering {entry!r} of {tpls!r:.400} did not finish within {RENDER_BUDGET} clock steps", {"templates": tpls})
+        ctx.violation(f"render-exceeds-step-budget:{case['family']}" + (f":{mode}-mode-fanout" if mode != "strict" else ""), f"rendering {entry!r} of {tpls!r:.400} ({mode} mode) did not finish within {RENDER_BUDGET} clock steps", {"templates": tpls})
         return
     if out == "cpu":
         ctx.inconclusive("CPU guard fired during a recursion family")
@@ -350,7 +354,7 @@ def judge_family(ctx: core.Ctx, case: dict[str, Any]) -> None:
         return
     else:
         ctx.count("families_other_liquid_error:" + str(out.err_class))
-    if case.get("must_cut") and out.ok:
+    if case.get("must_cut") and out.ok and mode == "strict":
         ctx.violation(f"unbounded-recursion-not-cut-off:{sig_tail}", f"the recursive family {tpls!r:.400} rendered to completion: {out.value!r:.100}", {"templates": tpls})
         return
     h = core.stable_hash(case)
@@ -508,7 +512,26 @@ def family_cases(ctx: core.Ctx, rng):
                 yield {"kind": "family", "family": fam, "cycle": 1, "wrappers": [w] * d, "async": False, "must_cut": fam != "call"}
 
 
+def tolerant_family_cases(ctx: core.Ctx):
+    """The same families in the tolerant modes, where an error is reported and the render goes on with the next node: a template that calls
+    itself twice (or three times) per level must still end, not try every branch of a tree as deep as the context depth limit."""
+    k = 0
+    for mode in ("lax", "warn"):
+        for fam, tags in (("render", None), ("include", None), ("mixed", ["include", "render"]), ("mixed", ["render", "render"])):
+            for fanout in (1, 2, 3):
+                for cycle in (1, 2, 3):
+                    for ws in ([], ["if"], ["for", "if"]):
+                        k += 1
+                        if k % ctx.nshards != ctx.shard:
+                            continue
+                        c = {"kind": "family", "family": fam, "cycle": cycle, "wrappers": ws, "async": k % 4 == 0, "must_cut": False, "mode": mode, "fanout": fanout}
+                        if tags:
+                            c["tags"] = tags
+                        yield c
+
+
 def cases(ctx: core.Ctx):
     rng = ctx.rng("cases")
+    yield from tolerant_family_cases(ctx)
     yield from family_cases(ctx, rng)
     yield from parse_cases(ctx, rng)
